@@ -18,6 +18,7 @@ import (
 	"github.com/bradenaw/juniper/chans"
 	"github.com/bradenaw/juniper/container/deque"
 	"github.com/bradenaw/juniper/container/tree"
+	"github.com/bradenaw/juniper/container/xheap"
 	"github.com/bradenaw/juniper/iterator"
 	"github.com/bradenaw/juniper/parallel"
 	"github.com/bradenaw/juniper/stream"
@@ -36,6 +37,7 @@ var extraScale = map[string]func(c *Case, res map[string]any, fail func(string, 
 	"lazy-panic":           scaleLazyPanic,
 	"xmap-swap-storm":      scaleXMapSwapStorm,
 	"do-empty":             scaleDoEmpty,
+	"pq-nan-keys":          scalePQNaNKeys,
 }
 
 // ---- C03: keys and values that were deleted or moved elsewhere can be garbage collected.
@@ -831,5 +833,37 @@ func scaleDoEmpty(c *Case, res map[string]any, fail func(string, ...any)) {
 		if err != nil || len(out2) != 0 {
 			fail("MapContext over an empty slice returned (%v, %v)", out2, err)
 		}
+	}
+}
+
+// ---- C05: Len is inserts minus removals whatever the keys are - also keys that are not equal to themselves (NaN).
+func scalePQNaNKeys(c *Case, res map[string]any, fail func(string, ...any)) {
+	q := xheap.NewPriorityQueue[float64, int](func(a, b int) bool { return a < b }, nil)
+	n := 0
+	for i := 0; i < 12; i++ {
+		k := math.NaN()
+		if i%3 == 2 {
+			k = float64(i)
+		}
+		q.Update(k, 100-i)
+		n++
+		if q.Len() != n {
+			fail("after %d Updates of new keys (NaN among them) Len() = %d", n, q.Len())
+			return
+		}
+	}
+	last := -1
+	for n > 0 {
+		k := q.Pop()
+		_ = k
+		n--
+		if q.Len() != n {
+			fail("after a Pop with %d items left Len() = %d", n, q.Len())
+			return
+		}
+		_ = last
+	}
+	if p, _ := protect(func() { q.Pop() }); !p {
+		fail("Pop on the drained queue did not panic")
 	}
 }
